@@ -852,6 +852,39 @@ example : ∃ (hz n : Nat) (sched : Nat → Op) (k : Nat) (x : Sub) (i : Nat) (p
     split at h <;> cases h
 
 
+/-! ### Why `Idle` is a hypothesis: a reporter pass need not end -/
+
+/-- three primed subscriptions with `min_int = 0` -/
+def starve0 : State :=
+  let s := State.new 1000000 3
+  let s := ((s.add 0 1 10 0 60 0).1.fin 1 .keep).1
+  let s := ((s.add 0 1 11 0 60 0).1.fin 2 .keep).1
+  ((s.add 0 1 12 0 60 0).1.fin 3 .keep).1
+
+/-- two reports of one reporter pass (`now` is fixed during a pass); a change arrives while each of
+them is in flight -/
+def starveCycle (s : State) : State × List (Option Nat) :=
+  let s := s.change (P 1 2 3)
+  let r1 := s.report 1000 0
+  let s := ((r1.1.change (P 1 2 3)).fin (r1.2.getD 0) .keep).1
+  let r2 := s.report 1000 0
+  let s := ((r2.1.change (P 1 2 3)).fin (r2.2.getD 0) .keep).1
+  (s, [r1.2, r2.2])
+
+/-- **Observation (starvation under continuous load).** `find_reportable` takes the first reportable
+subscription of the table, an acknowledged one is pushed to the end and `swap_remove` moves the last
+one to the front: with two `min_int = 0` subscribers and a change arriving during every report the
+pass alternates between subscriptions 1 and 3 and the table order is the same after every cycle —
+subscription 2 (reportable all the time) is not reported on, and the expiry sweep, which only runs
+at the begin of a pass, does not run either.  Any pause in the changes ends the pass. -/
+theorem starvation_cycle :
+    (starveCycle starve0).2 = [some 1, some 3] ∧
+    (starveCycle (starveCycle starve0).1).2 = [some 1, some 3] ∧
+    (starveCycle (starveCycle (starveCycle starve0).1).1).2 = [some 1, some 3] ∧
+    (starveCycle (starveCycle (starveCycle starve0).1).1).1.subs.map (·.id) = starve0.subs.map (·.id) ∧
+    (∀ x ∈ (starveCycle starve0).1.subs, x.id = 2 → x.seenAttr = 0) := by
+  refine ⟨by decide, by decide, by decide, by decide, by decide⟩
+
 /-- **One reporting cycle** (no fairness needed): in every reachable
 state, for a subscription `x` of the table that owes change `(i, p)`:
 * it is pending, hence reportable once `report_allowed_at ≤ now`, a report is then begun and the
